@@ -128,6 +128,15 @@ pub fn run(toks: &[&str]) -> String {
                 return "unknown-ident".into();
             };
             let eq = a == b;
+            // every comparison the type offers is the comparison of the protocol names: symmetric, and the same against a string
+            let (na, nb) = (String::from_utf8_lossy(&tag_name(&a)).into_owned(), String::from_utf8_lossy(&tag_name(&b)).into_owned());
+            let by_name = na == nb;
+            let with_str = [(a == nb.as_str(), by_name), (b == na.as_str(), by_name), (a == na.as_str(), true), (b == nb.as_str(), true),
+                            (a != nb.as_str(), !by_name), ((b == a), eq), (a.partial_cmp(&b) == Some(a.cmp(&b)), true), (b.cmp(&a) == a.cmp(&b).reverse(), true),
+                            (a.eq(&b), eq), (a.ne(&b), !eq), (a.clone() == a, true)];
+            if let Some(i) = with_str.iter().position(|(got, want)| got != want) {
+                return format!("INCONSISTENT comparison #{i} of Tag {na:?} with {nb:?} (0,1: tag == other's name; 2,3: tag == own name; 4: !=; 5: b == a; 6: partial_cmp; 7: antisymmetry; 8..: eq/ne/clone)");
+            }
             let cmp = match a.cmp(&b) {
                 std::cmp::Ordering::Less => "lt",
                 std::cmp::Ordering::Equal => "eq",
